@@ -113,6 +113,7 @@ def run_history(seed, case, dim, reset, nbodies, real_t, length):
     lines = [f"sizes {nV} {nW}"]
     for b, bd in enumerate(bodies):
         lines.append(f"params {b} {harness.fstr(bd['k'])} {harness.fstr(bd['c'])} {1 if reset else 0}")
+        lines.append(f"init {b} {harness.fstr(bd['t0'])}")
     lines.append("e0 " + " ".join(harness.fstr(v) for v in E0.ravel()))
     strides = np.array(E.strides) // E.itemsize
     observed = []
